@@ -102,8 +102,8 @@ def simulate(sched, t0, cancel_at=INF):
             nat[mid] = (start, sub.over, kind, sub)
         else:
             end = start + dur(m)
-            nat[mid] = (start, end, 'exc' if m['outcome'] == 'exc' else 'ret',
-                        None)
+            nat[mid] = (start, end, {'exc': 'exc', 'self_cancel': 'scancel'}
+                        .get(m['outcome'], 'ret'), None)
     finite = [m['id'] for m in members if not m['forever']]
     if members and not finite:
         raise Tie("no non-forever job")
@@ -276,9 +276,11 @@ def simulate(sched, t0, cancel_at=INF):
     return pred
 
 
-def predict(top):
+def predict(top, cancel_at=INF):
+    """cancel_at: the top-level co_run() is cancelled from outside then
+    (asyncio.wait_for around it)"""
     try:
-        return simulate(top, 0.0)
+        return simulate(top, 0.0, cancel_at=cancel_at)
     except Tie:
         return None
 
@@ -376,8 +378,8 @@ def compare(hist, pred_top):
                                                       pred.t_c, a_over)))
         elif pred.kind == 'exc' and pred.value is not None:
             val = sr.value
-            got = 'TimeoutError' if isinstance(val, TimeoutError) \
-                else getattr(val, 'nid', repr(val))
+            got = getattr(val, 'nid', None) or (
+                'TimeoutError' if isinstance(val, TimeoutError) else repr(val))
             if got != pred.value:
                 out.append(('C10' if hist.parents[sid] is not None else 'C04',
                             'model:exception-origin',
